@@ -16,6 +16,20 @@ CLAIMS = {
  "C02": ("Theorems (any ordered field): every iterate of every run is a distribution (non-negative, sum 1, dimension n, strictly increasing "
          "indices, no stored zero). Correspondence: WithIterations(k)/WithMaxIterations runs judged in exact rationals.",
          "Rounding of the sum is a measured tolerance; overflow excluded (see C05)."),
+ "C03": ("Theorems: the OpenAPI pipeline hands basic.Compute exactly the documented effective inputs (dimension = largest size, uniform "
+         "fallback, substitution of pre-trust for peers without positive outgoing trust, defaults 0.5 and 1e-6/n, discounts), invalid "
+         "requests are refused, both endpoints agree, stored = inline. Correspondence: requests through the echo router registered as "
+         "serve.go does, all presence patterns and size relations; scores judged against the exact rational EigenTrust scores of the "
+         "documented effective inputs and against the model at Float (bit-for-bit).",
+         "JSON codec and echo routing are outside the model; rounding is a measured tolerance."),
+ "C13": ("Theorems: sequential refinement of the /local-trust handlers to a map id -> matrix for every request history (statuses, overlay "
+         "merge with enlargement, invalid body = 400 and state unchanged, GET body = valid inline reference reproducing the matrix). "
+         "Correspondence: HTTP histories judged step by step against the model and an independent dense map.",
+         "The concurrent clause (linearizability, data races) is NOT proved: partial; only the sequential semantics is a theorem."),
+ "C14": ("Theorems: stored references resolve to the same effective inputs as the inline rendering of the stored matrix (stored = inline); "
+         "the pure model cannot alias the store. Tie: storeShape fact (deep copy under the lock) regenerated from the source. "
+         "Correspondence: GET before / compute / GET after byte-identical, stored vs inline scores bit-identical, repeated computes.",
+         "Go-level aliasing (shallow copies) and data races are only exercised by the correspondence and the shape fact, not proved: partial."),
  "C04": ("Theorems: canonicalisation laws (sum 1, ratios, zero-sum error, substitution for every row position, uniform fallback), "
          "exact scale invariance of the canonicalisation pipeline, and sigma-equivariance for power-of-two scaling under explicit "
          "IEEE hypotheses. Correspondence: the three canonicalisers judged in exact rationals; scaled-vs-unscaled runs compared bitwise.",
